@@ -10,7 +10,7 @@ import billiard.pool as bp
 from harness.hbase import fail, tier, Prune, ND, trace, PART, NPART, untraced, realize, NDCode, CODEMAX
 from harness import world as W
 
-K = tier(6, 7)
+K = tier(5, 6)
 LWT = 10
 
 
@@ -72,7 +72,7 @@ def _pool(nd, mode, want):
         nsub = 1
         maps.append(p.map_async(W.val, ['m0', 'm1'], chunksize=1))
         w.feed()
-    for _ in range(K):
+    for _ in range(K - 2 if mode == 'fault' else K):
         e = nd.draw(0, 6)
         if e == 0:
             if nsub >= 3:
@@ -117,7 +117,7 @@ def _pool(nd, mode, want):
             k = nd.draw(0, 1)
             if k >= len(p._pool) or p._pool[k].exitcode is not None:
                 raise Prune()
-            w.w_exit(p._pool[k], nd.draw(-9, 1))
+            w.w_exit(p._pool[k], (-9, 0, 1)[nd.draw(0, 2)])
             any_exit = True
         elif e == 5:
             if mode != 'fault':
